@@ -37,6 +37,24 @@ def names(text):
 
 
 def main():
+    import shutil
+    made = []
+    orig = tempfile.mkdtemp
+
+    def tracking(*a, **k):
+        d = orig(*a, **k)
+        made.append(d)
+        return d
+    tempfile.mkdtemp = tracking
+    try:
+        return _main()
+    finally:
+        tempfile.mkdtemp = orig
+        for d in made:
+            shutil.rmtree(d, ignore_errors=True)
+
+
+def _main():
     gensim.build_shim()
     gensim.build_bindgen()
     m = dict(MODEL)
